@@ -58,6 +58,12 @@ CHECKS.update({
    note="the one-event lag between a physical input and its recorded item is treated as convention; replay timing is compared up to queue latency."),
 })
 
+CHECKS.update({
+ "C20": dict(cat="exploration", ref="D5 C20", tech="deterministic simulation with a text-buffer observer and a documentation-level reference model of zippychord (seeded dictionary x press-order/timing search around the deadline and idle-reactivate timers)",
+   text="The OS output of the real Kanata (real parser, real zippychord state machine, tick-driven) is replayed into a text buffer with Linux key-state semantics and must equal the text predicted by a counter-free reference model: an activation replaces what the gesture / follow-up chain put on screen by the expansion (+ smart space), everything else passes through; no backspace may hit an empty buffer; shift / altgr held by the user are down at the OS after every activation; nothing is down at the end.",
+   note="histories whose outcome depends on the exact tick of the chord deadline / idle-reactivate time / 10000-tick reset (within 3 ms) and holds mixing a follow-up with a later top-level activation are counted but not judged; dead-key mappings (no-erase, single-output) are outside the text model; six genuine defects found by this check were repaired (known_findings.json, fixed)."),
+})
+
 NA = {
  "C11": "pure function of a 16-bit code / key name / config (discriminant tables, a transmute, set construction): no schedule, clock, fault or interleaving for a simulator to vary (DESIGN.md D7)",
 }
